@@ -11,28 +11,9 @@ every expression the same value and the same error reports, the duplicate-defini
 is the same, and values do not depend on the fuel once there is enough of it.
 -/
 namespace Pdpy11.Props.C03
-open Pdpy11.Model Pdpy11.Model.Defs Pdpy11.Model.Scope
+open Pdpy11.Model Pdpy11.Model.Defs Pdpy11.Model.Scope Pdpy11.Props.C11
 
 variable {δ : Type}
-
-theorem lookup_cons (k : String) (d : δ) (t : List (String × δ)) (q : String) :
-    lookup ((k, d) :: t) q = if k = q then some d else lookup t q := by
-  unfold lookup
-  by_cases h : k = q
-  · simp [List.find?, h]
-  · have hb : (k == q) = false := by simp [h]
-    simp [List.find?, hb, h]
-
-theorem lookup_none_of_not_mem (t : List (String × δ)) (q : String) (h : q ∉ t.map Prod.fst) :
-    lookup t q = none := by
-  induction t with
-  | nil => simp [lookup]
-  | cons a t ih =>
-    obtain ⟨k, d⟩ := a
-    simp only [List.map_cons, List.mem_cons, not_or] at h
-    rw [lookup_cons]
-    have : k ≠ q := fun e => h.1 e.symm
-    simp [this, ih h.2]
 
 /-- For definitions with distinct names, a reference finds the same definition after any
 permutation of the table. -/
@@ -145,20 +126,6 @@ theorem defineAll_spec (t : Table) (defs : List (String × E))
     simp only [defineAll, define, hl]
     have : ((t ++ [(n, e)] ++ rest).map Prod.fst).Nodup := by simpa using hn
     simpa using ih (t ++ [(n, e)]) this
-
-theorem lookup_some_of_mem (t : List (String × δ)) (q : String) (h : q ∈ t.map Prod.fst) :
-    (lookup t q).isSome := by
-  induction t with
-  | nil => simp at h
-  | cons a t ih =>
-    obtain ⟨k, d⟩ := a
-    rw [lookup_cons]
-    by_cases hk : k = q
-    · simp [hk]
-    · simp only [List.map_cons, List.mem_cons] at h
-      rcases h with h | h
-      · exact absurd h.symm hk
-      · simp [hk, ih h]
 
 /-- A second definition of a name is refused wherever it stands. -/
 theorem defineAll_dup (t : Table) (defs : List (String × E))
